@@ -5840,6 +5840,14 @@ func (a *Agent) aggressiveReconnect() {
 	for time.Now().Before(deadline) {
 		select {
 		case <-ticker.C:
+			// The agent may have been put back to sleep since the wake-up that
+			// started this loop. ReconnectAll would resume the paused reconnector
+			// and dial the peers of a sleeping agent: stop instead (the next
+			// wake-up starts a new loop).
+			if a.sleepMgr != nil && a.sleepMgr.GetState() != sleep.StateAwake {
+				a.logger.Debug("aggressive reconnection stopped: agent is no longer awake")
+				return
+			}
 			ctx, cancel := context.WithTimeout(parentCtx, retryInterval)
 			if err := a.peerMgr.ReconnectAll(ctx); err != nil {
 				// Don't log context canceled errors during shutdown
